@@ -489,7 +489,7 @@ func c18Variants(p *P, r *R) {
 			"(*epollDispatcher).runLoop":      "epoll user data decoding",
 		}},
 		{"epoll_linux.go", "epoll_linux_arm64.go", map[string]string{
-			"epollWait": "epoll_pwait vs epoll_wait syscall numbers",
+			"epollWait":       "epoll_pwait vs epoll_wait syscall numbers",
 			"TYPE epollEvent": "arm64 struct has a padding field",
 		}},
 	}
